@@ -33,7 +33,7 @@ pub enum Ev {
     ConnClose(u8),
     Upgrade(u8),
     RunBg(u8),
-    /// 0 = T/2, 1 = 2T
+    /// 0 = T/2, 1 = 2T, 2 = 3T/4 (only with `fine_ticks`)
     Tick(u8),
     /// macro step: Respond(r), Poll(r), ConnReady(c), RunBg(hand-back task) in one transition
     Finish(u8),
@@ -56,7 +56,7 @@ impl Ev {
             Ev::ConnClose(c) => format!("ConnClose(c{c})"),
             Ev::Upgrade(c) => format!("Upgrade(c{c})"),
             Ev::RunBg(t) => format!("RunBg(t{t})"),
-            Ev::Tick(k) => format!("Tick({})", if k == 0 { "T/2" } else { "2T" }),
+            Ev::Tick(k) => format!("Tick({})", match k { 0 => "T/2", 1 => "2T", _ => "3T/4" }),
             Ev::Finish(r) => format!("Finish(r{r})"),
         }
     }
@@ -80,7 +80,7 @@ impl Ev {
             "ConnClose" => Ev::ConnClose(num("c")?),
             "Upgrade" => Ev::Upgrade(num("c")?),
             "RunBg" => Ev::RunBg(num("t")?),
-            "Tick" => Ev::Tick(if arg == "T/2" { 0 } else { 1 }),
+            "Tick" => Ev::Tick(match arg { "T/2" => 0, "2T" => 1, _ => 2 }),
             "Finish" => Ev::Finish(num("r")?),
             _ => return None,
         })
@@ -172,6 +172,8 @@ pub struct SimConfig {
     pub t_ms: u64,
     pub split_handshake: bool,
     pub strict_is_open: bool,
+    /// the inner service polls the handed-out connection for readiness before sending
+    pub exec_polls_ready: bool,
     pub ev_cancel: bool,
     pub ev_dial_fail: bool,
     pub ev_close: bool,
@@ -183,6 +185,11 @@ pub struct SimConfig {
     pub max_depth: Option<usize>,
     /// replace Respond / ConnReady / hand-back task steps by the macro step Finish(r)
     pub macro_finish: bool,
+    /// a third tick of 3T/4, so that instants strictly between T and 3T/2 are reachable
+    pub fine_ticks: bool,
+    /// events applied before the search starts (the search begins in a non-initial state);
+    /// requests issued here count towards `max_requests`
+    pub prelude: Vec<String>,
 }
 
 impl SimConfig {
@@ -199,6 +206,7 @@ impl SimConfig {
             t_ms: 1000 * T_SECS,
             split_handshake: false,
             strict_is_open: true,
+            exec_polls_ready: false,
             ev_cancel: true,
             ev_dial_fail: true,
             ev_close: true,
@@ -207,6 +215,8 @@ impl SimConfig {
             burst: false,
             max_depth: None,
             macro_finish: false,
+            fine_ticks: false,
+            prelude: vec![],
         }
     }
     pub fn describe(&self) -> String {
@@ -215,7 +225,7 @@ impl SimConfig {
             self.name, self.max_requests, self.origins, self.allow_h1, self.allow_h2, self.continue_after_preemption,
             self.max_idle_per_host, self.idle_timeout, self.split_handshake, self.strict_is_open, self.ev_cancel,
             self.ev_dial_fail, self.ev_close, self.ev_upgrade, self.max_ticks, if self.burst { " burst" } else { "" }
-        ) + if self.macro_finish { " macro-finish" } else { "" } + &self.max_depth.map(|d| format!(" depth<={d}")).unwrap_or_else(|| " to-fixpoint".into())
+        ) + if self.exec_polls_ready { " exec-polls-ready" } else { "" } + if self.fine_ticks { " fine-ticks" } else { "" } + &(if self.prelude.is_empty() { String::new() } else { format!(" starting-after=[{}]", self.prelude.join(" ")) }) + if self.macro_finish { " macro-finish" } else { "" } + &self.max_depth.map(|d| format!(" depth<={d}")).unwrap_or_else(|| " to-fixpoint".into())
     }
 }
 
@@ -243,7 +253,7 @@ pub struct Sim {
     pub reqs: Vec<Req>,
     pub bgs: Vec<Bg>,
     pub ticks_used: usize,
-    /// clock offset in half-T units
+    /// clock offset in quarters of T
     pub clock_half_t: u64,
     pub history: Vec<Ev>,
     /// per origin (token order = issue order): request ids that entered the waiter queue, in order
@@ -287,6 +297,7 @@ impl Sim {
             *w = world::World::default();
             w.split_handshake = cfg.split_handshake;
             w.strict_is_open = cfg.strict_is_open;
+            w.exec_polls_ready = cfg.exec_polls_ready;
         });
         hooks::capture_spawns(true);
         let _ = hooks::take_spawned();
@@ -296,7 +307,7 @@ impl Sim {
         pc.max_idle_per_host = cfg.max_idle_per_host;
         pc.continue_after_preemption = cfg.continue_after_preemption;
         let svc = ConnectionPoolService::new(HTransport, HProtocol, Recorder, pc);
-        Sim {
+        let mut sim = Sim {
             cfg: cfg.clone(),
             svc,
             reqs: vec![],
@@ -308,7 +319,13 @@ impl Sim {
             panicked: None,
             snap: hooks::PoolSnapshot::default(),
             draining: false,
+        };
+        for t in &cfg.prelude {
+            let e = Ev::parse(t).unwrap_or_else(|| panic!("prelude event {t}"));
+            sim.apply(e);
         }
+        sim.history.clear();
+        sim
     }
 
     pub fn replay(cfg: &SimConfig, hist: &[Ev]) -> Sim {
@@ -435,6 +452,9 @@ impl Sim {
         if self.ticks_used < cfg.max_ticks && cfg.idle_timeout == Some(1) {
             v.push(Ev::Tick(0));
             v.push(Ev::Tick(1));
+            if cfg.fine_ticks {
+                v.push(Ev::Tick(2));
+            }
         }
         v
     }
@@ -720,11 +740,16 @@ impl Sim {
             }
             Ev::Tick(k) => {
                 self.ticks_used += 1;
-                let half = if k == 0 { 1 } else { 4 };
-                self.clock_half_t += half;
-                hooks::advance_clock(Duration::from_millis(self.cfg.t_ms * half / 2));
+                // in quarters of T
+                let q = match k {
+                    0 => 2,
+                    1 => 8,
+                    _ => 3,
+                };
+                self.clock_half_t += q;
+                hooks::advance_clock(Duration::from_millis(self.cfg.t_ms * q / 4));
                 // the same amount of virtual tokio time, so that timers created by pool code fire
-                advance_virtual_time(Duration::from_millis(self.cfg.t_ms * half / 2));
+                advance_virtual_time(Duration::from_millis(self.cfg.t_ms * q / 4));
             }
         }
         world::set_actor(None);
